@@ -135,7 +135,7 @@ func (e *Engine) Discharge(cfg SolverCfg) {
 				ob.Solver = "simplifier"
 				continue
 			}
-			q = c.Query([]*Term{neg}, ob.ModelTerms)
+			q = c.Query(e.prepareGoal(ob.Hyp, ob.Goal), ob.ModelTerms)
 		}
 		q = "; " + ob.Name + "\n; " + strings.Replace(ob.Clause, "\n", " ", -1) + "\n" + q
 		ob.QuerySz = len(q)
